@@ -729,15 +729,24 @@ class World(object):
             return list(h) if h is not None else None
         return None
 
-    def run(self, choose=None, max_steps=5000):
-        """Run to quiescence taking choose(enabled) (default: first = canonical schedule)."""
+    def run(self, choose=None, max_steps=5000, runaway=None):
+        """Run to quiescence taking choose(enabled) (default: first = canonical schedule).  With runaway=k the run stops
+        (self.runaway = True) when more than k steps pass without a scripted start/API event being taken: a batch of
+        sequentially started executions must not hang on one that never ends."""
         n = 0
+        since = 0
+        self.runaway = False
         while n < max_steps:
             en = self.enabled()
             self.enabled_cache = en
             if not en:
                 break
-            self.step(en[0] if choose is None else choose(en))
+            ev = en[0] if choose is None else choose(en)
+            since = 0 if ev[0] == "api" else since + 1
+            if runaway is not None and since > runaway:
+                self.runaway = True
+                break
+            self.step(ev)
             n += 1
         return n
 
